@@ -14,7 +14,7 @@ from . import c06 as c06mod
 
 PID = "C07"
 CLAIM = dict(
-    text="21 Coq theorems (all closed under the global context): totality, in an explicit exception monad with every partial Python "
+    text="Coq theorems (44; all closed under the global context): totality, in an explicit exception monad with every partial Python "
          "primitive marked (indexing, int() with the 4300-digit limit, str.encode / bytes.decode, base64.b64decode on non-ASCII text, "
          ".groups() of a failed match, tuple unpacking, constructor validation, dict[key], urlsplit(...).port), of parse_options_header, "
          "parse_list_header, parse_dict_header, parse_set_header, parse_etags, parse_range_header, parse_content_range_header, parse_age, "
